@@ -753,6 +753,12 @@ fn gen_c19(rng: &mut Rng, thorough: bool) -> Case {
                 let pos = rng.usize(ops.len() + 1);
                 ops.insert(pos, Op::ChaosWake { how: rng.below(3) as u8 });
             }
+            // A simulation nested in a handler (its executor is created, run and dropped while
+            // the outer executor is polling this model).
+            if rng.pct(8) {
+                let pos = rng.usize(ops.len() + 1);
+                ops.insert(pos, Op::Nested { models: rng.range(1, 3) as u8 });
+            }
         }
     }
     c.cfg.wake_on_drop = rng.pct(50);
